@@ -141,7 +141,7 @@ func extractRangeHelper(p *core.Prog, f *core.Fn) rangeHelper {
 func c12(r *core.Run) {
 	r.Expl = "C12 (interface summaries equal the stored data in range): decides (1) the per-block statistics that ReadMetadata subtracts for blocks outside the range carry every field of gpfile.Stats (both flow counts, drops, four counters, each counter from its own column), and Stats.Sub / TrafficMetadata.Sub / Counters.Sub and the Add counterparts cover every field; (2) exhaustively over the order type of a block's timestamp against the bound: BlocksBefore(t) returns exactly the blocks with timestamp < t, BlocksAfter(t) exactly those with timestamp > t, and the query's block filter skips exactly timestamp < first or > last — so the listing subtracts exactly what the query skips; (3) the blocks handed to the subtraction are the results of BlocksBefore(first) / BlocksAfter(last) themselves (value origin), with the matching index offset, and the operation is Sub; every visited day is added in full first. NOT decided: the sums as numbers, day-boundary arithmetic of walkDB, agreement with the directory-name suffix."
 	r.Floor = 30
-	r.Rules = append(r.Rules, "field-coverage (P3)", "range-predicate-agreement (P7 over order atoms)", "value-origin (P9)", "every-listed-block-evaluated (P2)")
+	r.Rules = append(r.Rules, "field-coverage (P3)", "range-predicate-agreement (P7 over order atoms)", "value-origin (P9)", "every-listed-block-evaluated (P2)", "recorded-as-given", "narrowing-guarded")
 	p := r.Prog("cgo")
 	ruleAccumulate(r, p, pkgGpfile, "Stats.Sub", token.SUB_ASSIGN)
 	ruleAccumulate(r, p, pkgGpfile, "TrafficMetadata.Sub", token.SUB_ASSIGN)
@@ -149,6 +149,12 @@ func c12(r *core.Run) {
 	ruleAccumulate(r, p, pkgGpfile, "Stats.Add", token.ADD_ASSIGN)
 	ruleAccumulate(r, p, pkgGpfile, "TrafficMetadata.Add", token.ADD_ASSIGN)
 	ruleAccumulate(r, p, "pkg/types", "Counters.Add", token.ADD_ASSIGN)
+	// the day totals are the sums of the per-block values only if each per-block value is stored as it was summed:
+	// recorded as given by WriteBlocks, and narrowed by Marshal only behind a range check that refuses the write
+	ruleRecordedAsGiven(r, p)
+	if m := r.MustFunc("narrowing-guarded", pkgGpfile, "GPDir.Marshal"); m != nil {
+		ruleNarrowing(r, p, m)
+	}
 	c12BlockStats(r, p)
 	c12EveryBlock(r, p)
 	c12RangeAgreement(r, p)
